@@ -265,7 +265,7 @@ def run(ctx, report: Report) -> None:
     list_context_table(ctx, r6)
 
     # ---- R7 (the whole pipeline by interpretation, bounded) --------------------------------------------------------------
-    r7 = report.rule('C12-R7', 'namespace selectors on a tree of mixed namespaces under two prefix maps (whole pipeline; bounded)', floor=23)
+    r7 = report.rule('C12-R7', 'namespace selectors on a tree of mixed namespaces under two prefix maps (whole pipeline; bounded)', floor=24)
     from .e2ematch import default_namespace_state_table, namespace_table
     namespace_table(ctx, r7)
     # a default namespace in the caller's map restricts the caller's own unprefixed names only - not the names inside the built-in
